@@ -11,7 +11,16 @@ func VsH_LockDiscipline() {
 	kmc, a := vsWallet(pass, "old")
 	vsTrack(kmc, "manager")
 	vsTrack(a, "addrmgr")
-	switch vsFork(17, "method") {
+	// every acquisition of the manager mutex during the call (a method that releases and re-acquires it lets another
+	// caller in between its steps: it is not one atomic operation even if every single access is protected)
+	acquired := 0
+	vsSetLockHook(func(lock string) {
+		if len(lock) >= 24 && lock[len(lock)-24:] == "KeystoreManagerForPoC.mu" {
+			acquired++
+		}
+	})
+	m := vsFork(17, "method")
+	switch m {
 	case 0:
 		kmc.IsLocked()
 	case 1:
@@ -48,5 +57,8 @@ func VsH_LockDiscipline() {
 		a.Address("x")
 	}
 	vsAssert(!vsAnyLockHeld(), "all-locks-released-on-return")
+	if m <= 8 || m == 13 || m == 14 {
+		vsAssert(acquired == 1, "manager-method-is-one-critical-section")
+	}
 	vsReach("returned")
 }
